@@ -2015,6 +2015,21 @@ def rule_Q4(ctx):
                              "the append to %s[] is guarded by `%s` (reads %s)" % (rec, key(und[0]["c"])[:60], und[1]), f.loc(n))
         else:
             ctx.ok("term_read", "the append to %s[] is guarded only by its own capacity test" % rec, loc=f.loc(n))
+        # the same guard spelt as an early exit: a key returned before the append is reached
+        for r_ in f.walk():
+            if r_["k"] != "return" or r_.get("e") is None or cval(r_["e"]) is not None or r_["ln"] >= n["ln"]:
+                continue
+            for a in f.ancestors(r_["id"]):
+                if a["k"] in ("if", "cond", "while", "for", "do", "switch") and isinstance(a.get("c"), dict):
+                    outs = [x["name"] for x in refs(a["c"]) if x["name"] not in own]
+                    if any(x.get("cat") in ("global", "slocal") for x in refs(a["c"]) if x["name"] not in own):
+                        ctx.violation("term_read", "key record appended whatever the key's origin",
+                                      "a key is returned before the append to %s[] under `%s`, which reads other program "
+                                      "state (%s): that key is missing from the record" % (rec, key(a["c"])[:60], ", ".join(outs)),
+                                      f.loc(r_))
+                    elif outs:
+                        ctx.inconclusive("term_read", "key record appended whatever the key's origin",
+                                         "a key is returned before the append under `%s`" % key(a["c"])[:60], f.loc(r_))
     if not found:
         raise AnalysisBroken("term_read does not store into %s[]" % rec)
 
